@@ -39,6 +39,8 @@ mod gcd;
 mod inv_mod;
 pub(crate) mod mul;
 mod mul_mod;
+#[cfg(crypto_bigint_verif)]
+pub(crate) use mul_mod::verif_mac_by_limb;
 mod neg;
 mod neg_mod;
 mod resize;
